@@ -16,6 +16,8 @@ COMMENT_POOL = [
     "#hash", "type T (a: int)", "method M() -> ()", "interface x.y", "trailing  ", "tab\tinside",
     "unicode \u00e9\u4e2d\U0001F680", "quote \" backslash \\ slash /", "", "?[]", "[string]", "()",
     "error E ()", "a_b__c", "0", "ctl \x01\x7f", "\u00a0x", "\u00e9",
+    # Unicode line ends are not line ends of the IDL (a comment ends at LF or CR only)
+    "line\u2028sep", "para\u2029end\u2029", "nel\u0085x",
 ]
 
 
